@@ -191,7 +191,16 @@ func (g *c09Gen) callSite(dir string) []*mj.Node {
 		g.labels["call:include"] = true
 		p, lv := g.callee(dir, g.n(0, 2, "includeWithReturn") == 0)
 		leak = lv
-		out = append(out, &mj.Node{K: "include", E: g.spell(p, dir, true), Ctx: ctx()})
+		name := g.spell(p, dir, true)
+		if g.n(0, 5, "nameSaysItself") == 0 {
+			// the name is a value that is no string but says what it is called (fmt.Stringer): a struct, or a
+			// defined type of kind string whose String method does not return the string it is made of
+			nm := g.id("sn")
+			g.p.Vars[nm] = mj.Recipe{T: []string{"stringer", "kindstringer"}[g.n(0, 1, "stringerKind")], S: p}
+			name = mj.Var(nm)
+			g.labels["include-name:"+g.p.Vars[nm].T] = true
+		}
+		out = append(out, &mj.Node{K: "include", E: name, Ctx: ctx()})
 	case k <= 5:
 		g.labels["call:exec"] = true
 		p, lv := g.callee(dir, true)
@@ -295,6 +304,13 @@ func genC09(t *rapid.T) c09Case {
 			[]*mj.Node{mj.Text("("), mj.Print(mj.Var("depthLeft")), mj.Set("depthLeft", mj.Bin("-", mj.Var("depthLeft"), mj.Num(1))), {K: "include", E: mj.Str([]string{"rec.jet", "./rec.jet", dir + "rec.jet"}[g.n(0, 2, "recSpelling")])}, mj.Text(")")}, nil)}})
 		body = append(body, mj.Let("depthLeft", mj.Num(float64(g.n(1, 3, "recDepth")))), mj.Text("{rec:"), &mj.Node{K: "include", E: mj.Str(dir + "rec.jet")}, mj.Text("}"))
 		g.labels["template-including-itself"] = true
+	}
+	if g.n(0, 39, "manyIncludes") == 0 {
+		// one loop, one scope, a thousand and more includes one after the other: each is a call that has returned
+		// before the next begins, however many there are (nesting is what has a depth, not repetition)
+		g.addFile(&mj.File{Path: dir + "row.jet", Body: []*mj.Node{mj.Text("r")}})
+		body = append(body, mj.Text("{rows:"), &mj.Node{K: "range", E: mj.Call("ints", mj.Num(0), mj.Num(float64(g.n(1001, 1030, "rows")))), Body: []*mj.Node{{K: "include", E: mj.Str(dir + "row.jet")}}}, mj.Text("}(.="), mj.Print(mj.Dot()), mj.Text(")"))
+		g.labels["more-than-1000-includes-in-a-row"] = true
 	}
 	g.p.Dev = g.n(0, 3, "devMode") == 0
 	if g.p.Dev {
